@@ -52,7 +52,9 @@ static std::map<std::string, const FIX8::F8MetaCntx *> dl_ctx;
 const FIX8::F8MetaCntx& schema(const std::string& name)
 {
 	if (name == "UTEST") return FIX8::UTEST::ctx();
+#ifndef FX_SMALL
 	if (name == "F44") return FIX8::F44::ctx();
+#endif
 	auto it(dl_ctx.find(name));
 	if (it != dl_ctx.end()) return *it->second;
 	// anything else is the path of a shared object exporting verif_ctx()
